@@ -5,6 +5,7 @@ import (
 	"go/ast"
 	"go/token"
 	"go/types"
+	"golang.org/x/tools/go/ssa"
 	"sort"
 	"strings"
 
@@ -380,6 +381,21 @@ func C12(p *load.Program, run *report.Run) {
 				same = false
 			}
 		}
+		if !same && len(got) == 0 && pr[2] == "" {
+			// no circuit at all: the low bits of a sum, difference or product do not depend on how the circuit is
+			// wired, so math/big on the operands' bits zero-extended, truncated to the result width, is the same
+			// function — provided the operands really are zero-extended (a 64-bit value kept as an int64 is negative
+			// as a big.Int when its top bit is set)
+			if sf, err := p.Method("compiler/mpa", "Int", pr[0]); err == nil {
+				if why := bigFoldZeroExtended(sf, pr[0]); why == "" {
+					run.OK("fold-bigpath", key, p.Rel(fd.Pos()), "folded with math/big on zero-extended operands and truncated to the result width")
+					continue
+				} else {
+					run.Violate("fold-bigpath", key, p.Rel(fd.Pos()), "large constants are folded with math/big instead of the circuit's builder, and "+why, nil)
+					continue
+				}
+			}
+		}
 		if !same {
 			run.Violate("fold-bigpath", key, p.Rel(fd.Pos()), fmt.Sprintf("large constants are folded with %v, the circuit for %s is built with %s", got, pr[1], want), nil)
 			continue
@@ -404,4 +420,119 @@ func C12(p *load.Program, run *report.Run) {
 		}
 		run.OK("fold-bigpath", key, p.Rel(fd.Pos()), want)
 	}
+}
+
+// bigFoldZeroExtended: f (a method of mpa.Int) computes its wide result with (*big.Int).<op> on two operands that
+// are each the result of a method whose every return is non-negative by construction, and the result goes
+// through (*big.Int).And (directly or in a method of Int called afterwards).
+func bigFoldZeroExtended(f *ssa.Function, op string) string {
+	isBig := func(c *ssa.Call, name string) bool {
+		callee := c.Call.StaticCallee()
+		return callee != nil && callee.Name() == name && callee.Signature.Recv() != nil && strings.HasSuffix(callee.Signature.Recv().Type().String(), "big.Int")
+	}
+	var arith *ssa.Call
+	masked := false
+	for _, b := range f.Blocks {
+		for _, ins := range b.Instrs {
+			c, ok := ins.(*ssa.Call)
+			if !ok {
+				continue
+			}
+			if isBig(c, op) && len(c.Call.Args) == 3 {
+				arith = c
+			}
+			if isBig(c, "And") {
+				masked = true
+			}
+			if callee := c.Call.StaticCallee(); callee != nil && callee.Blocks != nil && callee.Pkg == f.Pkg {
+				for _, cb := range callee.Blocks {
+					for _, ci := range cb.Instrs {
+						if cc, ok := ci.(*ssa.Call); ok && isBig(cc, "And") {
+							masked = true
+						}
+					}
+				}
+			}
+		}
+	}
+	if arith == nil {
+		return "no (*big.Int)." + op + " on the operands was found"
+	}
+	if !masked {
+		return "the result is not truncated to the result width"
+	}
+	for _, a := range arith.Call.Args[1:] {
+		c, ok := a.(*ssa.Call)
+		if !ok || c.Call.StaticCallee() == nil || c.Call.StaticCallee().Blocks == nil {
+			return "an operand of the big-integer " + op + " is not the result of a conversion method"
+		}
+		if why := nonNegativeBig(c.Call.StaticCallee()); why != "" {
+			return "the operand conversion " + c.Call.StaticCallee().Name() + " can yield a negative number (" + why + "): a 64-bit operand with its top bit set is multiplied as a negative value"
+		}
+	}
+	return ""
+}
+
+// nonNegativeBig: every value f returns is non-negative by construction: the result of SetUint64, a value
+// returned where `v.Sign() < 0` was just found false, or the sum modulus + v returned where it was found true.
+func nonNegativeBig(f *ssa.Function) string {
+	isBig := func(v ssa.Value, name string) (*ssa.Call, bool) {
+		c, ok := v.(*ssa.Call)
+		if !ok {
+			return nil, false
+		}
+		callee := c.Call.StaticCallee()
+		return c, callee != nil && callee.Name() == name && callee.Signature.Recv() != nil && strings.HasSuffix(callee.Signature.Recv().Type().String(), "big.Int")
+	}
+	// blocks where a value is known negative / non-negative
+	type fact struct {
+		v   ssa.Value
+		neg bool
+		blk *ssa.BasicBlock
+	}
+	var facts []fact
+	for _, b := range f.Blocks {
+		iff, ok := b.Instrs[len(b.Instrs)-1].(*ssa.If)
+		if !ok {
+			continue
+		}
+		bo, ok := iff.Cond.(*ssa.BinOp)
+		if !ok || bo.Op != token.LSS {
+			continue
+		}
+		c, isSign := isBig(bo.X, "Sign")
+		k, isC := bo.Y.(*ssa.Const)
+		if !isSign || !isC || k.Int64() != 0 {
+			continue
+		}
+		facts = append(facts, fact{c.Call.Args[0], true, b.Succs[0]}, fact{c.Call.Args[0], false, b.Succs[1]})
+	}
+	for _, b := range f.Blocks {
+		ret, ok := b.Instrs[len(b.Instrs)-1].(*ssa.Return)
+		if !ok {
+			continue
+		}
+		v := load.Results(ret)[0]
+		if _, ok := isBig(v, "SetUint64"); ok {
+			continue
+		}
+		good := false
+		for _, fc := range facts {
+			if len(fc.blk.Preds) != 1 || !(fc.blk == b || fc.blk.Dominates(b)) {
+				continue
+			}
+			if !fc.neg && fc.v == v {
+				good = true
+			}
+			if fc.neg {
+				if c, ok := isBig(v, "Add"); ok && len(c.Call.Args) == 3 && (c.Call.Args[1] == fc.v || c.Call.Args[2] == fc.v) {
+					good = true
+				}
+			}
+		}
+		if !good {
+			return "a returned value is not shown to be non-negative"
+		}
+	}
+	return ""
 }
